@@ -337,6 +337,28 @@ def finish(ctx, obligations, discharged, theorems, rule, checker_cmd, assumption
     return code
 
 
+def emergency_report(ctx):
+    """the check module crashed (an exception of the harness itself - possibly provoked by the very behaviour that is wrong):
+    violations recorded before the crash are still reported; returns the exit code (1 if something unlisted was reported, else 2)"""
+    known = load_known(ctx.prop)
+    code = 2
+    seen = set()
+    for v in ctx.violations:
+        if any(k.get("status") == "finding" and v.signature and v.signature == k.get("signature") for k in known):
+            continue
+        key = v.signature or v.what
+        if key in seen:
+            continue
+        seen.add(key)
+        path = write_replay(ctx.prop, {"property": ctx.prop, "kind": v.kind, "what": v.what, "signature": v.signature, "replay": v.replay,
+                                       "seed": ctx.seed, "tier": ctx.tier, "note": "reported after the check module crashed"})
+        print("VIOLATION property=%s replay=%s" % (ctx.prop, path))
+        code = 1
+        if len(seen) >= 5:
+            break
+    return code
+
+
 _coverage = None      # set by cli.main when line coverage of the implementation is measured (ZCV_COVERAGE=1 / thorough tier)
 
 
